@@ -138,3 +138,32 @@ Lemma pinned_setnx_witness :
                [TCaller (init_caller 0 [OSetNX k_cmap (VStr 5); OGet k_cmap] [])] sched in
     w_hist (fst r) = [(0, OGet k_cmap, RNotFound); (0, OSetNX k_cmap (VStr 5), RBool true)].
 Proof. exists [0; 0; 0]. vm_compute. reflexivity. Qed.
+
+(* ---- sequential behaviour, small scope (the unbounded statement is C14_read_your_writes_sequential_full_statement) ----
+   every sequence of at most 3 non-overlapping operations over {Set v1, Set v2, Get, Delete, Exists, Append 7,
+   Remove 7} on a persistent key (local cache) and on a shared+persistent key (shared cache), from every coherent
+   initial state (empty, warm cache, cold cache), each write-back landing before the next operation: results
+   and visible value equal the one-register specification, and the state stays coherent. *)
+Definition seq_alphabet (k : kbytes) : list op :=
+  [OSet k (VStr 1); OSet k (VList [5%N]); OGet k; ODel k; OExists k; OAppend k 7; ORemove k 7].
+Fixpoint seqs (n : nat) (al : list op) : list (list op) :=
+  match n with 0 => [[]] | S m => [] :: flat_map (fun o => map (cons o) (seqs m al)) al end.
+Definition ores_eqb (a b : option res) : bool :=
+  match a, b with Some x, Some y => res_eqb x y | None, None => true | _, _ => false end.
+Definition coherentb (T : tables) (c : cfg) (w : world) (k : kbytes) : bool :=
+  negb (two_tier T c k) || negb (is_some (tget w (cache_tier_for_key T c k) k))
+  || ovalue_eqb (tget w (cache_tier_for_key T c k) k) (tget w TPers k).
+Definition seq_ok (c : cfg) (k : kbytes) (w : world) (os : list op) : bool :=
+  let '(w', rs) := exec_seq GenTables c w os in
+  let '(st, rs') := spec_seq (visible GenTables c w k) os in
+  all2 ores_eqb rs rs' && ovalue_eqb (visible GenTables c w' k) st && coherentb GenTables c w' k.
+Definition seq_inits (c : cfg) (k : kbytes) : list world :=
+  let e := init_world empty_store empty_store empty_store in
+  let ct := cache_tier_for_key GenTables c k in
+  [e; tset e TPers k (Some (VList [7%N])); tset (tset e TPers k (Some (VStr 9))) ct k (Some (VStr 9))].
+Definition cfg_shared : cfg := {| has_shared := true; en_pers := true; fix_incr := true; fix_setnx := true |}.
+
+Lemma sequential_small_scope :
+  forallb (fun ck => forallb (fun w => forallb (seq_ok (fst ck) (snd ck) w) (seqs 3 (seq_alphabet (snd ck)))) (seq_inits (fst ck) (snd ck)))
+          [(cfg_local, k_user); (cfg_shared, k_cmap); (cfg_local, k_cmap); (cfg_shared, k_user)] = true.
+Proof. vm_compute. reflexivity. Qed.
